@@ -156,12 +156,31 @@ func checkRollingAvgEncoder(c *Ctx, r *Report) {
 			names = append(names, nm)
 		}
 		sort.Strings(names)
+		var cands []*ssa.Function
 		for _, nm := range names {
 			f, ok := p.Members[nm].(*ssa.Function)
 			if !ok || f.Blocks == nil || f.Signature.Recv() != nil || len(f.Params) != 1 || f.Signature.Results().Len() != 1 {
 				continue
 			}
 			if f.Params[0].Type().String() == "time.Duration" && typeBits(f.Signature.Results().At(0).Type().Underlying()) == 8 && isIntType(f.Signature.Results().At(0).Type().Underlying()) {
+				cands = append(cands, f)
+			}
+		}
+		// the encoder is the one the others work for: per-arm helpers of the same signature are
+		// called by it (and spliced into its view), it is called by none of them
+		for _, f := range cands {
+			calledByOther := false
+			for _, g := range cands {
+				if g == f {
+					continue
+				}
+				rawInstrs(g, true, func(in ssa.Instruction) {
+					if cc := asCall(in); cc != nil && cc.StaticCallee() == f {
+						calledByOther = true
+					}
+				})
+			}
+			if !calledByOther {
 				found = f
 				n++
 			}
